@@ -36,7 +36,9 @@ def tool_error(msg):
 
 
 def workdir(pid, clean=True):
-    d = os.path.join(WORK, pid)
+    # one scratch directory per property and tier, so that a quick and a thorough run of the same check can coexist
+    tier = os.environ.get("WV_TIER", "quick")
+    d = os.path.join(WORK, pid if tier == "quick" else pid + "-" + tier)
     if clean and os.path.isdir(d):
         shutil.rmtree(d, ignore_errors=True)
     os.makedirs(d, exist_ok=True)
